@@ -20,7 +20,7 @@ import random
 from .. import common as C, gencap
 from . import c15_gendump as GD
 
-BASE = 400000
+BASE = 500000
 ENV_TEMPLATE_NAMES = {'self', '_env_file', '_reload', '_env_prefix', '_secrets_dir', '_vars', '_name', '_env_var', '_var_name', 'e', 'cls',
                       'Env', 'MISSING', 'add', 'get_env', 'lookup_exact', 'handle_err', 'ParseError', 'MissingVars', 'dict', 'items',
                       'update', 'append'}
